@@ -84,16 +84,19 @@ def handle (args : List String) (impl : String) : Verdict :=
             | .np n pts => some (toldStr (.points n pts), n, pts, true)
             | .ep n par pts => some (toldStr (.edgePoints n par pts), n, pts, false)
             | _ => none)
+          -- a batch with a not-a-number value is refused by the store as a whole: the client is told nothing of it
+          let refused := fun (pts : List Store.Point) => pts.any (fun p => isNaN p.value)
           let c1 := writes.all (fun w =>
             let (s, n, pts, isNode) := w
             let foreign := pts.all (fun p => !p.origin.isEmpty && p.origin != cl.2)
-            if below n && (foreign || !isNode) then log.contains s else true)
+            if refused pts then !log.contains s
+            else if below n && (foreign || !isNode) then log.contains s else true)
           let c2 := writes.all (fun w =>
             let (s, n, pts, isNode) := w
             let own := isNode && !pts.isEmpty && pts.all (fun p => (p.origin.isEmpty && n == cl.2) || p.origin == cl.2)
             if own then !log.contains s else true)
           let c3 := log.all (fun s => writes.any (fun w => w.1 == s && below w.2.1))
-          let firsts := (writes.map (·.1)).filter (fun s => log.contains s)
+          let firsts := ((writes.filter (fun w => !refused w.2.2.1)).map (·.1)).filter (fun s => log.contains s)
           let c4 := (log.eraseDups) == (firsts.eraseDups)
           c1 && c2 && c3 && c4)
         let foldOk := clients.all (fun cl => !inScope cl || implFold (keyOfC cl) == "same")
@@ -106,7 +109,8 @@ def handle (args : List String) (impl : String) : Verdict :=
           obs0.all (fun op => match op with
             | .np n pts =>
               let foreign := pts.all (fun p => !p.origin.isEmpty && p.origin != cl.2)
-              if below n && foreign then log.contains (toldStr (.points n pts)) else true
+              if pts.any (fun p => isNaN p.value) then !log.contains (toldStr (.points n pts))
+              else if below n && foreign then log.contains (toldStr (.points n pts)) else true
             | .ep n par pts => if below n then log.contains (toldStr (.edgePoints n par pts)) else true
             | _ => true))
         { model := m, spec := some ok,
